@@ -218,7 +218,7 @@ func (g *scopeGen) fill(sc *Scope, si *scopeInfo, depth, maxDepth int) {
 				body = append(body, &Stmt{K: "class", Sub: sub, Tag: g.tag("class:" + where)})
 			}
 		case x == 17:
-			body = append(body, &Stmt{K: "lambda", N: n, N2: g.pick(), Form: []string{"plain", "default", "nested"}[r.Intn(3)], Tag: g.tag("lambda:" + where + ":" + role(n))})
+			body = append(body, &Stmt{K: "lambda", N: n, N2: g.pick(), Form: []string{"plain", "default", "nested", "kwonly", "kwonlycomp"}[r.Intn(5)], Tag: g.tag("lambda:" + where + ":" + role(n))})
 		default:
 			body = append(body, &Stmt{K: "comp", N: n, N2: g.pick(), Form: []string{"list", "gen", "set", "dict", "nested", "lam"}[r.Intn(6)], Tag: g.tag("comp:" + where + ":" + role(n))})
 		}
@@ -356,6 +356,10 @@ func renderStmts(b *strings.Builder, sc *Scope, stmts []*Stmt, ind int) {
 			switch st.Form {
 			case "default":
 				w("try:\n    _h = lambda _q, %s=%s: (%s, %s)\n    log(\"%s\", _h(0))\nexcept Exception as _e:\n    log(\"%s\", exc_name(_e))", st.N, st.N2, st.N, st.N2, st.Tag, st.Tag)
+			case "kwonly":
+				w("try:\n    _h = lambda _q, *, %s=\"%sk\": (lambda: (%s, %s))()\n    log(\"%s\", _h(0), _h(0, %s=\"%sv\"))\nexcept Exception as _e:\n    log(\"%s\", exc_name(_e))", st.N, st.Tag, st.N, st.N2, st.Tag, st.N, st.Tag, st.Tag)
+			case "kwonlycomp":
+				w("try:\n    _h = lambda _q, *_r, %s=\"%sk\", **_kw: [(%s, _j) for _j in _r]\n    log(\"%s\", _h(0, 1, 2), _h(0, 3, %s=\"%sv\"))\nexcept Exception as _e:\n    log(\"%s\", exc_name(_e))", st.N, st.Tag, st.N, st.Tag, st.N, st.Tag, st.Tag)
 			case "nested":
 				w("try:\n    _h = lambda _q: (lambda: (%s, %s))()\n    log(\"%s\", _h(0))\nexcept Exception as _e:\n    log(\"%s\", exc_name(_e))", st.N, st.N2, st.Tag, st.Tag)
 			default:
